@@ -3,12 +3,12 @@ module verifharness
 go 1.23
 
 require (
+	git.apache.org/thrift.git v0.13.0
 	github.com/henrylee2cn/erpc/v6 v6.0.0
 	pgregory.net/rapid v1.3.0
 )
 
 require (
-	git.apache.org/thrift.git v0.13.0 // indirect
 	github.com/gogo/protobuf v1.2.1 // indirect
 	github.com/golang/protobuf v1.4.2 // indirect
 	github.com/henrylee2cn/ameda v1.3.6 // indirect
